@@ -269,3 +269,31 @@ def canon_suffix_tests(expr):
     """A copy of `expr` with suffix comparisons spelled as endswith() calls (see _SuffixCanon)."""
     import copy
     return ast.fix_missing_locations(_SuffixCanon().visit(copy.deepcopy(expr)))
+
+
+def guard_of(stmt, pmap, stop=None):
+    """Conjunction (an ast expression, or None for "always") of the tests of the `if` statements enclosing `stmt`
+    up to (excluding) ancestor `stop`; a test is negated when `stmt` sits in the else branch.  Loops, try and with
+    blocks in between are transparent."""
+    import copy
+    conds = []
+    child = stmt
+    cur = pmap.get(id(stmt))
+    while cur is not None and cur is not stop:
+        if isinstance(cur, ast.If):
+            t = copy.deepcopy(cur.test)
+            if any(child is x for x in cur.orelse):
+                t = ast.UnaryOp(op=ast.Not(), operand=t)
+            elif not any(child is x for x in cur.body):
+                t = None
+            if t is not None:
+                conds.append(t)
+        if isinstance(cur, (ast.FunctionDef, ast.AsyncFunctionDef, ast.ClassDef)):
+            break
+        child = cur
+        cur = pmap.get(id(cur))
+    if not conds:
+        return None
+    conds.reverse()
+    e = conds[0] if len(conds) == 1 else ast.BoolOp(op=ast.And(), values=conds)
+    return ast.fix_missing_locations(e)
